@@ -20,6 +20,13 @@ def main():
     tier = a.tier if a.tier in ('quick', 'thorough') else 'quick'
     os.chdir(common.VERIF)
     mod = importlib.import_module('props.' + a.cid.lower())
+    # Runs that regenerate translated Coq files from a non-default tree, or whose theorems are
+    # re-proved against regenerated text, must not overlap with any other run (shared coq/ dir).
+    import fcntl
+    os.makedirs(common.BUILD, exist_ok=True)
+    lock = open(os.path.join(common.BUILD, '.lock'), 'w')
+    exclusive = bool(os.environ.get('VERIF_REPO')) or a.cid.upper() in ('C13', 'C17', 'C18')
+    fcntl.flock(lock, fcntl.LOCK_EX if exclusive else fcntl.LOCK_SH)
     chk = verdict.Check(a.cid, tier, common.seed_from_env())
     if a.replay:
         data = json.load(open(a.replay))
